@@ -72,4 +72,63 @@ def deconv1dRefusal (o : D1Opts) : Option String :=
     | some e => some e
     | none => if (noiseType o.noise.toLower).isNone then some "NotImplementedError" else none
 
+/-! ### Deconvolution2D -/
+
+/-- what the caller passes as `PSF` to `Deconvolution2D` -/
+inductive Psf2Arg
+  | square            -- a 2-D ndarray with equal sides
+  | nonsquare         -- a 2-D ndarray with different sides: `fftconvolve`/cropping fails at the first use of the model
+  | str (s : String)
+  | other
+  deriving DecidableEq, Repr
+
+/-- what the caller passes as `phantom` to `Deconvolution2D` -/
+inductive Phantom2Arg
+  | image (ndim : Nat)          -- ndarray, `ndim ≥ 2` (any size: it is resized)
+  | vector (len : Nat)          -- 1-D ndarray: reshaped to `N × N`, `N = round(sqrt(len))`
+  | str (s : String) (inLibrary : Bool)   -- `inLibrary`: `hasattr(cuqi.data, name)` after `lower()` and `-` → `_` (leaf)
+  | other
+  deriving DecidableEq, Repr
+
+structure D2Opts where
+  bc : String
+  psf : Psf2Arg
+  psfParamZero : Bool
+  phantom : Phantom2Arg
+  noise : String
+  deriving Repr
+
+/-- `N*N == len` for `N = int(round(sqrt(len)))`: `len` is a perfect square -/
+def isSquareNat (n : Nat) : Bool := n.sqrt * n.sqrt == n
+
+/-- the first exception of `Deconvolution2D.__init__`, in the order of the code; `none`: constructed.
+    An unknown PSF name leaves `P` unbound and a non-square PSF array cannot be applied: both only
+    surface at `y_exact = model@x_exact`, AFTER the phantom has been validated. -/
+def deconv2dRefusal (o : D2Opts) : Option String :=
+  if (bc2d o.bc.toLower).isNone then some "TypeError" else
+  let psfNow : Option String := match o.psf with
+    | .str s => (match psfName s.toLower with
+        | some .defocus => if o.psfParamZero then some "IndexError" else none
+        | _ => none)
+    | .other => some "TypeError"
+    | _ => none
+  match psfNow with
+  | some e => some e
+  | none =>
+    let ph : Option String := match o.phantom with
+      | .image nd => if nd > 2 then some "ValueError" else none
+      | .vector len => if isSquareNat len then none else some "ValueError"
+      | .str _ inLib => if inLib then none else some "ValueError"
+      | .other => some "TypeError"
+    match ph with
+    | some e => some e
+    | none =>
+      let psfLater : Option String := match o.psf with
+        | .str s => if (psfName s.toLower).isNone then some "NameError" else none
+        | .nonsquare => some "ValueError"
+        | _ => none
+      match psfLater with
+      | some e => some e
+      | none => if (noiseType o.noise.toLower).isNone then some "NotImplementedError" else none
+
 end CuqiVerif.C17
